@@ -178,6 +178,10 @@ func (f *fakeNet) ListenPacket(network string, address string) (net.PacketConn, 
 }
 
 func (f *fakeNet) ListenUDP(network string, locAddr *net.UDPAddr) (transport.UDPConn, error) {
+	// as the kernel: a link-local IPv6 address cannot be bound without its zone
+	if locAddr != nil && locAddr.IP.To4() == nil && locAddr.IP.IsLinkLocalUnicast() && locAddr.Zone == "" {
+		return nil, &net.OpError{Op: "listen", Net: network, Addr: locAddr, Err: errors.New("bind: invalid argument")} //nolint:err113
+	}
 	s, err := f.listenUDP(network, locAddr)
 	if err != nil {
 		return nil, err
